@@ -220,3 +220,430 @@ Section WBlk.
       + rewrite IH; [reflexivity | exact Hr | exact Hir | exact Hd' | exact Hst | exact Hmd].
   Qed.
 End WBlk.
+
+(* ---------------- one statement ---------------- *)
+Definition user (l : label) : Prop := match l with LUser _ => True | LGen _ _ => False end.
+
+Section Sim.
+  Variable T : optable.
+  Variable libm : unop -> Z -> Z.
+  Variable avail : ikind -> bool.
+  Variable auto_casts : bool.
+  Variable rty : Z -> ty.
+  Variable lty : nat -> ty.
+  Variable diff : nat.
+  Variable dsel : option nat.
+  Hypothesis no_sigil_intrinsics : forall op t, sigil_of_unop op <> None -> avail (KUnOp op t) = false.
+  Hypothesis HT : T_ok T libm.
+  Hypothesis H2 : T_ok2 T libm.
+
+  Notation eval_e := (eval_e T libm rty lty diff).
+  Notation assign_e := (assign_e T libm rty lty diff).
+  Notation eval_s := (eval_s T libm rty lty diff).
+  Notation assign_s := (assign_s T libm rty lty diff).
+  Notation wblk := (wblk T libm lty dsel).
+  Notation run_blk := (run_blk T libm lty).
+  Notation run_fwd := (run_fwd T libm lty).
+  Notation fresh := (fresh lty).
+  Notation te_agree := (te_agree lty).
+  Notation wt_pure := (wt_pure rty lty).
+  Notation wt_cond := (wt_cond rty lty).
+  Notation wt_tern := (wt_tern rty lty).
+  Notation classify := (classify auto_casts rty lty).
+
+  Lemma fresh_upd m n x v : fresh m n -> (match x with VReg _ => True | VLoc d => (d < n)%nat end) -> fresh (update m x v) n.
+  Proof. exact (fresh_update libm rty lty 0 m n x v). Qed.
+  Lemma fresh_mono m n n' : (n <= n')%nat -> fresh m n -> fresh m n'.
+  Proof. intros Hn H d Hd. apply H. lia. Qed.
+  Lemma fresh_upd_var m n v r : fresh m n -> var_below n v -> fresh (update m (v_id v) r) n.
+  Proof. intros Hf Hv. apply fresh_upd; [exact Hf|]. unfold var_below in Hv. destruct (v_id v); [exact I | exact Hv]. Qed.
+  Lemma var_below_mono_ n n' v : (n <= n')%nat -> var_below n v -> var_below n' v.
+  Proof. unfold var_below. destruct (v_id v); [auto|]. lia. Qed.
+  Lemma locals_below_mono_ n n' : (n <= n')%nat -> forall e, locals_below n e = true -> locals_below n' e = true.
+  Proof. exact (locals_below_mono libm rty lty 0 n n'). Qed.
+  Lemma te_agree_mono n n' te1 te2 : (n <= n')%nat -> te_agree n' te1 te2 -> te_agree n te1 te2.
+  Proof. intros Hn H d Hd. apply H. lia. Qed.
+
+  Lemma eval_e_agree n0 te m e : te_agree n0 [] te -> locals_below n0 e = true -> eval_e m e = eval_s te m e.
+  Proof. intros Ha Hb. symmetry. exact (agree_eval T libm rty lty diff n0 [] te m Ha e Hb). Qed.
+
+  Lemma assign_e_agree n0 te m v aop e : te_agree n0 [] te -> locals_below n0 e = true -> var_below n0 v ->
+    assign_e m v aop e = assign_s te m v aop e.
+  Proof.
+    intros Ha Hb Hv. unfold LowerProg.assign_e, LowerSound.assign_s.
+    rewrite (eval_e_agree n0 te m e Ha Hb).
+    rewrite (eval_e_agree n0 te m (var_expr v) Ha (below_var_expr n0 v Hv)). reflexivity.
+  Qed.
+
+  Lemma notnan_b_sound v : notnan_b v = true -> notnan v.
+  Proof. destruct v; cbn; auto. intros H. apply Bool.negb_true_iff in H. exact H. Qed.
+
+  Lemma nonan_b_sound n0 te m : te_agree n0 [] te -> forall e, locals_below n0 e = true ->
+    nonan_b T libm rty lty diff m e = true -> nonan T libm rty lty diff te m e.
+  Proof.
+    intros Ha. induction e; intros Hb H; cbn [LowerProg.nonan_b LowerJumps.nonan locals_below] in *; try exact I.
+    - destruct op; try exact I. apply IHe; assumption.
+    - apply andb_prop in Hb. destruct Hb as [Hb1 Hb2].
+      assert (Hcmp : match eval_e m e1, eval_e m e2 with Ok av, Ok bv => notnan_b av && notnan_b bv | _, _ => true end = true ->
+                     forall av bv, eval_s te m e1 = Ok av -> eval_s te m e2 = Ok bv -> notnan av /\ notnan bv).
+      { intros Hc av bv E1 E2. rewrite (eval_e_agree n0 te m e1 Ha Hb1), E1, (eval_e_agree n0 te m e2 Ha Hb2), E2 in Hc.
+        apply andb_prop in Hc. destruct Hc. split; apply notnan_b_sound; assumption. }
+      destruct op; try (apply Hcmp; exact H);
+        (apply andb_prop in H; destruct H; split; [apply IHe1 | apply IHe2]; assumption).
+  Qed.
+
+  Lemma nonan_tb_sound n0 te m : te_agree n0 [] te -> forall e, locals_below n0 e = true ->
+    nonan_tb T libm rty lty diff m e = true -> nonan_t T libm rty lty diff te m e.
+  Proof.
+    intros Ha. induction e; intros Hb H; cbn [LowerProg.nonan_tb LowerJumps.nonan_t locals_below] in *; try exact I.
+    apply andb_prop in Hb. destruct Hb as [Hb Hb3]. apply andb_prop in Hb. destruct Hb as [Hb1 Hb2].
+    apply andb_prop in H. destruct H as [H H3]. apply andb_prop in H. destruct H as [H1 H2'].
+    split; [eapply nonan_b_sound; eassumption|]. split; [apply IHe2 | apply IHe3]; assumption.
+  Qed.
+
+  Lemma labels_in_not_user lo hi code l : labels_in lo hi code -> user l -> Forall (not_label l) code.
+  Proof.
+    intros H Hu. eapply Forall_impl; [|exact H]. intros x Hx. destruct x; cbn in *; auto.
+    destruct l0; [contradiction|]. intros E. subst l. exact Hu.
+  Qed.
+
+  (* the block of one statement, once its memory effect is known *)
+  Lemma block_exec t mask d c1 st md' m' : runs dsel mask = true ->
+    Forall (at_time t mask) c1 -> Forall (instr_ok d) c1 -> dest_free d c1 -> touches c1 -> p_time st <= t ->
+    (forall cmp, exists c', run_blk c1 Exec (p_mem st) cmp = Ok (md', m', c')) ->
+    forall cmp, exists c', wblk c1 Exec st cmp = Ok (md', set_mem (wait t st) m', c').
+  Proof.
+    intros Hr Ht Hi Hd Hx Hle Hrun cmp.
+    rewrite (wblk_entry T libm lty dsel t mask c1 st cmp Ht Hx).
+    rewrite (wblk_steady T libm lty dsel t mask d Hr c1 Exec (wait t st) cmp Ht Hi Hd (wait_time t st Hle) I).
+    rewrite wait_mem. destruct (Hrun cmp) as [c' E]. rewrite E. eauto.
+  Qed.
+
+  Notation lower := (lower avail auto_casts rty lty).
+  Notation lower_stmt := (lower_stmt avail auto_casts rty lty).
+
+  Lemma sim_assign n0 t mask fuel v aop e s c1 s1 st m' :
+    runs dsel mask = true ->
+    lower t mask fuel (CAssignOp v aop e) s = Ok (c1, s1) ->
+    (n0 <= g s)%nat -> te_agree n0 [] (te s) ->
+    var_below n0 v -> locals_below n0 e = true ->
+    (wt_pure [] e = true \/ (aop = None /\ wt_tern [] e = true)) ->
+    nonan_tb T libm rty lty diff (p_mem (wait t st)) e = true ->
+    fresh (p_mem st) (g s) -> p_time st <= t ->
+    assign_e (p_mem (wait t st)) v aop e = Ok m' ->
+    (forall cmp, exists c', wblk c1 Exec st cmp = Ok (Exec, set_mem (wait t st) m', c')) /\
+    (g s <= g s1)%nat /\ te_agree (g s) (te s) (te s1) /\ fresh m' (g s1).
+  Proof.
+    intros Hr Hl Hn Ha Hv Hb Hw Hnn Hfr Hle Hsem. rewrite wait_mem in *. set (m := p_mem st) in *.
+    rewrite (assign_e_agree n0 (te s) m v aop e Ha Hb Hv) in Hsem.
+    assert (Hb' : locals_below (g s) e = true) by (eapply locals_below_mono_; eassumption).
+    assert (Hv' : var_below (g s) v) by (eapply var_below_mono_; eassumption).
+    assert (Hcps : (forall rest cmp, exists cmp', run_fwd (c1 ++ rest) Exec m cmp = run_fwd rest Exec m' cmp') /\
+                   (g s <= g s1)%nat /\ te_agree (g s) (te s) (te s1)).
+    { destruct Hw as [Hw|[-> Hw]].
+      - rewrite <- (agree_wt rty lty n0 [] (te s) Ha e Hb) in Hw.
+        destruct (lower_sound T libm avail auto_casts rty lty diff t mask no_sigil_intrinsics HT fuel _ _ _ _ Hl) with (m := m) (m' := m')
+          as [Hrun [Hg Ht]]; [cbn [wf_call]; auto | exact Hfr | exact Hsem |].
+        split; [|split; assumption]. intros rest cmp. exists cmp. apply run_fwd_pure. exact Hrun.
+      - rewrite <- (agree_wt_tern rty lty n0 [] (te s) Ha e Hb) in Hw.
+        eapply (tern_sound T libm avail auto_casts rty lty diff t mask no_sigil_intrinsics HT H2 fuel (CAssignOp v None e) s c1 s1 v e Hl eq_refl m m');
+          try eassumption. eapply nonan_tb_sound; eassumption. }
+    destruct Hcps as [Hcps [Hg Ht]].
+    split; [|split; [exact Hg|split; [exact Ht|]]].
+    - apply (block_exec t mask None c1 st Exec m' Hr).
+      + eapply lower_times. exact Hl.
+      + exact (lower_instr_ok avail auto_casts rty lty t mask fuel _ s c1 s1 Hl).
+      + exact I.
+      + eapply lower_touches. exact Hl.
+      + exact Hle.
+      + apply cps_blk. exact Hcps.
+    - destruct (assign_s_shape T libm rty lty diff _ _ _ _ _ _ Hsem) as [r ->].
+      apply fresh_upd_var; [eapply fresh_mono; eassumption | eapply var_below_mono_; [|exact Hv']; exact Hg].
+  Qed.
+
+  Lemma unless_same k : is_unless k = kw_unless k.
+  Proof. destruct k; reflexivity. Qed.
+
+  Lemma user_label_ok l n : user l -> label_ok l n.
+  Proof. destruct l; cbn; [auto | contradiction]. Qed.
+
+  Lemma sim_cond n0 t mask fuel k e l jt s c1 s1 st v b :
+    runs dsel mask = true ->
+    lower t mask fuel (CCondNonCount k e l jt) s = Ok (c1, s1) ->
+    (n0 <= g s)%nat -> te_agree n0 [] (te s) ->
+    wt_cond [] e = true -> locals_below n0 e = true -> user l ->
+    nonan_b T libm rty lty diff (p_mem (wait t st)) e = true ->
+    fresh (p_mem st) (g s) -> p_time st <= t ->
+    eval_e (p_mem (wait t st)) e = Ok v -> truthy v = Ok b ->
+    (forall cmp, exists c', wblk c1 Exec st cmp =
+        Ok (mode_of (if xorb b (kw_unless k) then Some (l, jt) else None), set_mem (wait t st) (p_mem (wait t st)), c')) /\
+    (g s <= g s1)%nat /\ te_agree (g s) (te s) (te s1).
+  Proof.
+    intros Hr Hl Hn Ha Hw Hb Hu Hnn Hfr Hle Hev Htr. rewrite wait_mem in *. set (m := p_mem st) in *.
+    rewrite (eval_e_agree n0 (te s) m e Ha Hb) in Hev.
+    rewrite <- (agree_wt_cond rty lty n0 [] (te s) Ha e Hb) in Hw.
+    assert (Hb' : locals_below (g s) e = true) by (eapply locals_below_mono_; eassumption).
+    destruct (cond_sound T libm avail auto_casts rty lty diff t mask no_sigil_intrinsics HT H2 fuel _ _ _ _ Hl m (xorb b (is_unless k)))
+      as [Hcps [Hg Ht]].
+    - cbn [wf_cond]. split; [exact Hw|]. split; [exact Hb'|]. split; [apply user_label_ok; exact Hu|]. eapply nonan_b_sound; eassumption.
+    - exact Hfr.
+    - cbn [taken_sem]. unfold cond_s. rewrite Hev. cbn [obind]. rewrite Htr. reflexivity.
+    - split; [|split; assumption].
+      assert (Hd : dest_free (Some (l, jt)) c1).
+      { unfold dest_free. destruct jt; [|exact I].
+        destruct (lower_shape avail auto_casts rty lty t mask fuel _ s c1 s1 Hl) as [_ [L _]].
+        eapply labels_in_not_user; eassumption. }
+      replace (mode_of (if xorb b (kw_unless k) then Some (l, jt) else None)) with (after (xorb b (is_unless k)) (CCondNonCount k e l jt))
+        by (rewrite unless_same; destruct (xorb b (kw_unless k)); reflexivity).
+      apply (block_exec t mask (Some (l, jt)) c1 st _ m Hr).
+      + eapply lower_times. exact Hl.
+      + exact (lower_instr_ok avail auto_casts rty lty t mask fuel _ s c1 s1 Hl).
+      + exact Hd.
+      + eapply lower_touches. exact Hl.
+      + exact Hle.
+      + apply cps_blk. exact Hcps.
+  Qed.
+
+  Notation lower_count_jump := (lower_count_jump avail rty lty).
+  Notation neutral := (neutral lty).
+
+  Lemma count_static t mask k v op l jt s c1 s1 :
+    lower_count_jump t mask k v op l jt s = Ok (c1, s1) ->
+    Forall (at_time t mask) c1 /\ Forall (instr_ok (Some (l, jt))) c1 /\ touches c1 /\
+    labels_in (g s) (g s1) c1 /\ neutral (g s) c1 /\ (g s <= g s1)%nat /\ te s1 = te s.
+  Proof.
+    unfold Lower.lower_count_jump. destruct (negb (avail (KCountJmp op))); [discriminate|].
+    unfold var_arg. destruct (negb (ty_eqb _ TInt)); [discriminate|].
+    destruct k.
+    - unfold instr, ret. intros H. inversion H; subst.
+      split; [repeat constructor|]. split; [constructor; [|constructor]; cbn; split; [reflexivity | right; reflexivity]|].
+      split; [reflexivity|]. split; [repeat constructor|]. split; [intros m _; reflexivity|]. split; [lia | reflexivity].
+    - unfold gen_label. cbn [fst snd]. unfold seq, instr, need, ret, instr. destruct (avail KJmp); [|discriminate].
+      cbn [g te]. intros H. inversion H; subst. cbn [app g te].
+      split; [repeat constructor|].
+      split; [constructor; [cbn; split; [reflexivity | left; reflexivity]|];
+              constructor; [cbn; split; [reflexivity | right; reflexivity]|]; constructor; [exact I | constructor]|].
+      split; [reflexivity|].
+      split; [constructor; [exact I|]; constructor; [exact I|]; constructor; [cbn; lia | constructor]|].
+      split; [intros m _; reflexivity|]. split; [lia | reflexivity].
+  Qed.
+
+  Lemma sim_count n0 t mask k v op l jt s c1 s1 st m' j :
+    runs dsel mask = true ->
+    lower_count_jump t mask k v op l jt s = Ok (c1, s1) ->
+    (n0 <= g s)%nat -> te_agree n0 [] (te s) -> var_below n0 v -> user l ->
+    fresh (p_mem st) (g s) -> p_time st <= t ->
+    count_e T libm rty lty diff (p_mem (wait t st)) k v op l jt = Ok (m', j) ->
+    (forall cmp, exists c', wblk c1 Exec st cmp = Ok (mode_of j, set_mem (wait t st) m', c')) /\
+    (g s <= g s1)%nat /\ te_agree (g s) (te s) (te s1) /\ fresh m' (g s1).
+  Proof.
+    intros Hr Hl Hn Ha Hv Hu Hfr Hle Hsem. rewrite wait_mem in *. set (m := p_mem st) in *.
+    destruct (count_static t mask k v op l jt s c1 s1 Hl) as [Ht [Hi [Hx [L [N [Hg Hte]]]]]].
+    unfold LowerProg.count_e in Hsem.
+    rewrite (eval_e_agree n0 (te s) m (var_expr v) Ha (below_var_expr n0 v Hv)) in Hsem.
+    destruct (eval_s (te s) m (var_expr v)) as [x| | |] eqn:Ev; cbn [obind] in Hsem; try discriminate.
+    destruct x as [n|f|str]; try discriminate. inversion Hsem; subst m' j. clear Hsem.
+    split; [|split; [exact Hg|split]].
+    - replace (mode_of (if xorb (cnt_taken op (wrap32 (n - 1))) (kw_unless k) then Some (l, jt) else None))
+        with (if xorb (count_taken op (wrap32 (n - 1))) (is_unless k) then Seek l jt else Exec)
+        by (rewrite unless_same; unfold count_taken, cnt_taken; destruct (xorb _ _); reflexivity).
+      apply (block_exec t mask (Some (l, jt)) c1 st _ _ Hr Ht Hi); [|exact Hx|exact Hle|].
+      + unfold dest_free. destruct jt; [|exact I]. eapply labels_in_not_user; eassumption.
+      + apply cps_blk. intros rest cmp. exists cmp.
+        apply (count_jump_sound T libm avail rty lty diff t mask no_sigil_intrinsics k v op l jt s c1 s1 m n Hl (user_label_ok l (g s) Hu) Ev).
+    - rewrite Hte. intros d _. reflexivity.
+    - apply fresh_upd_var; [eapply fresh_mono; eassumption|]. eapply var_below_mono_; [|exact Hv]. lia.
+  Qed.
+
+  Notation lower_args := (lower_args avail auto_casts rty lty).
+  Notation sstep := (sstep T libm rty lty diff).
+
+  (* the statements covered by the whole-body theorem: assignments (any compound operator over jump-free
+     right-hand sides; ternaries with plain `=`), conditional, counting and unconditional jumps to user labels,
+     labels, interrupts, instruction calls whose arguments need no temporaries *)
+  Definition wf_stmt (n0 : nat) (st : sstmt) : Prop :=
+    match st with
+    | SAssign v aop e =>
+        var_below n0 v /\ locals_below n0 e = true /\ (wt_pure [] e = true \/ (aop = None /\ wt_tern [] e = true))
+    | SCondJmp k (CExpr e) l jt => wt_cond [] e = true /\ locals_below n0 e = true /\ user l
+    | SCondJmp k (CPredec v) l jt => var_below n0 v /\ user l
+    | SCondJmp k (CPredecCmp v op) l jt => var_below n0 v /\ user l
+    | SJmp l jt => user l
+    | SLabel l => user l
+    | SCall opc args =>
+        Forall (fun e => wt_pure [] e = true /\ locals_below n0 e = true /\ exists a ta, classify [] e = Simple a ta) args
+    | SInterrupt _ => True
+    | SNop | SDecl _ _ | SScopeEnd _ => False
+    end.
+
+  Lemma mapM_ext {A B} (f h : A -> outcome B) l : (forall x, In x l -> f x = h x) -> mapM f l = mapM h l.
+  Proof.
+    induction l as [|x l IH]; intros H; [reflexivity|]. cbn [mapM].
+    rewrite (H x (or_introl eq_refl)). rewrite IH; [reflexivity|]. intros y Hy. apply H. right. exact Hy.
+  Qed.
+
+  Lemma lower_args_simple n0 t mask fuel s : te_agree n0 [] (te s) -> forall args,
+    Forall (fun e => wt_pure [] e = true /\ locals_below n0 e = true /\ exists a ta, classify [] e = Simple a ta) args ->
+    exists la, lower_args t mask fuel args s = Ok ([], la, [], s) /\
+               forall m, mapM (read_arg m) la = mapM (eval_e m) args.
+  Proof.
+    intros Ha. induction args as [|e args IH]; intros H.
+    - exists []. split; reflexivity.
+    - pose proof (Forall_inv H) as [Hw [Hb [a [ta Hc]]]]. destruct (IH (Forall_inv_tail H)) as [la [El Em]].
+      assert (Hc' : classify (te s) e = Simple a ta).
+      { rewrite (agree_classify auto_casts rty lty n0 [] (te s) Ha e Hb Hw). exact Hc. }
+      exists (a :: la). split.
+      + cbn [Lower.lower_args]. rewrite Hc', El. reflexivity.
+      + intros m. cbn [mapM]. rewrite Em.
+        assert (Hw' : wt_pure (te s) e = true) by (rewrite (agree_wt rty lty n0 [] (te s) Ha e Hb); exact Hw).
+        destruct (classify_simple T libm auto_casts rty lty diff (te s) m e a ta Hw' Hc') as [Hr _].
+        rewrite Hr, <- (eval_e_agree n0 (te s) m e Ha Hb). reflexivity.
+  Qed.
+
+  Lemma te_agree_refl_ n te : te_agree n te te.
+  Proof. intros d _. reflexivity. Qed.
+
+  Lemma stmt_sim n0 t mask fuel stmt s c1 s1 st m' j lg :
+    runs dsel mask = true ->
+    lower_stmt t mask fuel stmt s = Ok (c1, s1) -> wf_stmt n0 stmt ->
+    (n0 <= g s)%nat -> te_agree n0 [] (te s) ->
+    fresh (p_mem st) (g s) -> p_time st <= t ->
+    stmt_nonan T libm rty lty diff stmt (p_mem (wait t st)) = true ->
+    sstep stmt (p_mem (wait t st)) = Ok (m', j, lg) ->
+    (forall cmp, exists c', wblk c1 Exec st cmp = Ok (mode_of j, logged lg (set_mem (wait t st) m'), c')) /\
+    (g s <= g s1)%nat /\ te_agree (g s) (te s) (te s1) /\ fresh m' (g s1).
+  Proof.
+    intros Hr Hl Hwf Hn Ha Hfr Hle Hnn Hs.
+    destruct stmt as [v aop e|ty0 vars|k c l jt|l jt|l|opc args|d|e|]; cbn [wf_stmt] in Hwf; try contradiction;
+      cbn [Lower.lower_stmt] in Hl.
+    - (* SAssign *)
+      destruct Hwf as [Hv [Hb Hw]]. cbn [LowerProg.sstep LowerProg.stmt_nonan] in Hs, Hnn.
+      destruct (assign_e (p_mem (wait t st)) v aop e) as [m1| | |] eqn:Ea; cbn [obind] in Hs; try discriminate.
+      inversion Hs; subst m' j lg. cbn [mode_of logged].
+      eapply sim_assign; eassumption.
+    - (* SCondJmp *)
+      destruct c as [v|v op|e].
+      + destruct Hwf as [Hv Hu]. cbn [LowerProg.sstep] in Hs.
+        destruct (count_e T libm rty lty diff (p_mem (wait t st)) k v Ne l jt) as [[m1 j1]| | |] eqn:Ec; cbn [obind fst snd] in Hs; try discriminate.
+        inversion Hs; subst m' j lg. cbn [logged].
+        eapply sim_count; eassumption.
+      + destruct Hwf as [Hv Hu]. cbn [LowerProg.sstep] in Hs.
+        destruct op; try discriminate.
+        * destruct (count_e T libm rty lty diff (p_mem (wait t st)) k v Ne l jt) as [[m1 j1]| | |] eqn:Ec; cbn [obind fst snd] in Hs; try discriminate.
+          inversion Hs; subst m' j lg. cbn [logged]. eapply sim_count; eassumption.
+        * destruct (count_e T libm rty lty diff (p_mem (wait t st)) k v Gt l jt) as [[m1 j1]| | |] eqn:Ec; cbn [obind fst snd] in Hs; try discriminate.
+          inversion Hs; subst m' j lg. cbn [logged]. eapply sim_count; eassumption.
+      + destruct Hwf as [Hw [Hb Hu]]. cbn [LowerProg.sstep LowerProg.stmt_nonan] in Hs, Hnn.
+        destruct (eval_e (p_mem (wait t st)) e) as [v| | |] eqn:Ev; cbn [obind] in Hs; try discriminate.
+        destruct (truthy v) as [b| | |] eqn:Eb; cbn [obind] in Hs; try discriminate.
+        inversion Hs; subst m' j lg. cbn [logged].
+        destruct (sim_cond n0 t mask fuel k e l jt s c1 s1 st v b Hr Hl Hn Ha Hw Hb Hu Hnn Hfr Hle Ev Eb) as [Hrun [Hg Ht]].
+        split; [exact Hrun|]. split; [exact Hg|]. split; [exact Ht|].
+        rewrite wait_mem. eapply fresh_mono; eassumption.
+    - (* SJmp *)
+      cbn [LowerProg.sstep] in Hs. inversion Hs; subst m' j lg. cbn [mode_of logged].
+      unfold need, instr, ret in Hl. destruct (avail KJmp); [|discriminate]. inversion Hl; subst c1 s1.
+      split; [|split; [lia|split; [apply te_agree_refl_|rewrite wait_mem; exact Hfr]]].
+      intros cmp. exists cmp. cbn [LowerProg.wblk]. rewrite Hr. cbn [negb LowerSem.exec_step]. reflexivity.
+    - (* SLabel *)
+      cbn [LowerProg.sstep] in Hs. inversion Hs; subst m' j lg. cbn [mode_of logged].
+      unfold ret in Hl. inversion Hl; subst c1 s1.
+      split; [|split; [lia|split; [apply te_agree_refl_|rewrite wait_mem; exact Hfr]]].
+      intros cmp. exists cmp. cbn [LowerProg.wblk]. rewrite set_mem_id. reflexivity.
+    - (* SCall *)
+      cbn [LowerProg.sstep] in Hs.
+      destruct (lower_args_simple n0 t mask fuel s Ha args Hwf) as [la [El Em]]. rewrite El in Hl.
+      inversion Hl; subst c1 s1. cbn [app map rev].
+      destruct (mapM (eval_e (p_mem (wait t st))) args) as [vs| | |] eqn:Ev; cbn [obind] in Hs; try discriminate.
+      inversion Hs; subst m' j lg. cbn [mode_of logged].
+      split; [|split; [lia|split; [apply te_agree_refl_|rewrite wait_mem; exact Hfr]]].
+      intros cmp. exists cmp. cbn [LowerProg.wblk]. rewrite Hr. cbn [negb]. rewrite Em, Ev. rewrite set_mem_id. reflexivity.
+    - (* SInterrupt *)
+      cbn [LowerProg.sstep] in Hs. inversion Hs; subst m' j lg. cbn [mode_of logged].
+      destruct e; try discriminate. unfold need, instr, ret in Hl. destruct (avail KInterrupt); [|discriminate]. inversion Hl; subst c1 s1.
+      split; [|split; [lia|split; [apply te_agree_refl_|rewrite wait_mem; exact Hfr]]].
+      intros cmp. exists cmp. cbn [LowerProg.wblk]. rewrite Hr. cbn [negb LowerSem.exec_step]. rewrite set_mem_id. reflexivity.
+  Qed.
+
+  Lemma arrive_mem lt jt st : p_mem (arrive lt jt st) = p_mem st.
+  Proof. unfold arrive. rewrite wait_mem. reflexivity. Qed.
+  Lemma logged_mem lg st : p_mem (logged lg st) = p_mem st.
+  Proof. destruct lg as [[o vs]|]; reflexivity. Qed.
+
+  (* statements only write registers and source locals *)
+  Lemma sstep_fresh n0 stmt m m' j lg : wf_stmt n0 stmt -> fresh m n0 -> sstep stmt m = Ok (m', j, lg) -> fresh m' n0.
+  Proof.
+    intros Hwf Hfr Hs.
+    destruct stmt as [v aop e|ty0 vars|k c l jt|l jt|l|opc args|d|e|]; cbn [wf_stmt] in Hwf; try contradiction;
+      cbn [LowerProg.sstep] in Hs.
+    - destruct Hwf as [Hv _]. destruct (assign_e m v aop e) as [m1| | |] eqn:Ea; cbn [obind] in Hs; try discriminate.
+      inversion Hs; subst. destruct (assign_s_shape T libm rty lty diff [] m v aop e m' Ea) as [r ->].
+      apply fresh_upd_var; assumption.
+    - assert (Hc : forall v op, var_below n0 v -> forall r, count_e T libm rty lty diff m k v op l jt = Ok r -> fresh (fst r) n0).
+      { intros v op Hv r Hr. unfold LowerProg.count_e in Hr. destruct (eval_e m (var_expr v)) as [x| | |]; cbn [obind] in Hr; try discriminate.
+        destruct x; try discriminate. inversion Hr; subst. cbn [fst]. apply fresh_upd_var; assumption. }
+      destruct c as [v|v op|e].
+      + destruct Hwf as [Hv _]. destruct (count_e T libm rty lty diff m k v Ne l jt) as [r| | |] eqn:Ec; cbn [obind] in Hs; try discriminate.
+        inversion Hs; subst. eapply Hc; eassumption.
+      + destruct Hwf as [Hv _]. destruct op; try discriminate;
+          (destruct (count_e T libm rty lty diff m k v _ l jt) as [r| | |] eqn:Ec; cbn [obind] in Hs; try discriminate;
+           inversion Hs; subst; eapply Hc; eassumption).
+      + destruct (eval_e m e) as [v| | |]; cbn [obind] in Hs; try discriminate.
+        destruct (truthy v) as [b| | |]; cbn [obind] in Hs; try discriminate. inversion Hs; subst. exact Hfr.
+    - inversion Hs; subst. exact Hfr.
+    - inversion Hs; subst. exact Hfr.
+    - destruct (mapM (eval_e m) args); cbn [obind] in Hs; try discriminate. inversion Hs; subst. exact Hfr.
+    - inversion Hs; subst. exact Hfr.
+  Qed.
+
+  Lemma sstep_jump_user n0 stmt m m' l jt lg : wf_stmt n0 stmt -> sstep stmt m = Ok (m', Some (l, jt), lg) -> user l.
+  Proof.
+    intros Hwf Hs.
+    destruct stmt as [v aop e|ty0 vars|k c l0 jt0|l0 jt0|l0|opc args|d|e|]; cbn [wf_stmt] in Hwf; try contradiction;
+      cbn [LowerProg.sstep] in Hs.
+    - destruct (assign_e m v aop e); cbn [obind] in Hs; discriminate.
+    - assert (Hc : forall v op r, count_e T libm rty lty diff m k v op l0 jt0 = Ok r -> snd r = Some (l, jt) -> l = l0).
+      { intros v op r Hr Hj. unfold LowerProg.count_e in Hr. destruct (eval_e m (var_expr v)) as [x| | |]; cbn [obind] in Hr; try discriminate.
+        destruct x; try discriminate. inversion Hr; subst. cbn [snd] in Hj. destruct (xorb _ _); inversion Hj. reflexivity. }
+      destruct c as [v|v op|e].
+      + destruct Hwf as [_ Hu]. destruct (count_e T libm rty lty diff m k v Ne l0 jt0) as [r| | |] eqn:Ec; cbn [obind] in Hs; try discriminate.
+        inversion Hs as [[Hm Hj Hlg]]. rewrite (Hc _ _ _ Ec Hj). exact Hu.
+      + destruct Hwf as [_ Hu]. destruct op; try discriminate;
+          (destruct (count_e T libm rty lty diff m k v _ l0 jt0) as [r| | |] eqn:Ec; cbn [obind] in Hs; try discriminate;
+           inversion Hs as [[Hm Hj Hlg]]; rewrite (Hc _ _ _ Ec Hj); exact Hu).
+      + destruct Hwf as [_ [_ Hu]]. destruct (eval_e m e) as [v| | |]; cbn [obind] in Hs; try discriminate.
+        destruct (truthy v) as [b| | |]; cbn [obind] in Hs; try discriminate.
+        destruct (xorb b (kw_unless k)); inversion Hs; subst. exact Hu.
+    - inversion Hs; subst. exact Hwf.
+    - inversion Hs.
+    - destruct (mapM (eval_e m) args); cbn [obind] in Hs; discriminate.
+    - inversion Hs.
+  Qed.
+
+  (* what the code of one statement looks like from outside *)
+  Lemma stmt_shape n0 t mask fuel stmt s c1 s1 :
+    lower_stmt t mask fuel stmt s = Ok (c1, s1) -> wf_stmt n0 stmt -> te_agree n0 [] (te s) ->
+    (g s <= g s1)%nat /\ te_agree (g s) (te s) (te s1) /\ neutral (g s) c1 /\
+    match stmt with SLabel l => c1 = [LLabel t l] | _ => labels_in (g s) (g s1) c1 end.
+  Proof.
+    intros Hl Hwf Ha.
+    assert (Hone : forall i, Ok ([LInstr t mask i], s) = Ok (c1, s1) ->
+              (g s <= g s1)%nat /\ te_agree (g s) (te s) (te s1) /\ neutral (g s) c1 /\ labels_in (g s) (g s1) c1).
+    { intros i H. inversion H; subst. split; [lia|]. split; [apply te_agree_refl_|]. split; [apply neutral_instr | repeat constructor]. }
+    destruct stmt as [v aop e|ty0 vars|k c l jt|l jt|l|opc args|d|e|]; cbn [wf_stmt] in Hwf; try contradiction;
+      cbn [Lower.lower_stmt] in Hl.
+    - destruct (lower_shape avail auto_casts rty lty t mask fuel _ s c1 s1 Hl) as [G [L [N A]]]. auto.
+    - assert (Hc : forall v op, lower_count_jump t mask k v op l jt s = Ok (c1, s1) ->
+                (g s <= g s1)%nat /\ te_agree (g s) (te s) (te s1) /\ neutral (g s) c1 /\ labels_in (g s) (g s1) c1).
+      { intros v op H. destruct (count_static t mask k v op l jt s c1 s1 H) as [_ [_ [_ [L [N [G E]]]]]].
+        split; [exact G|]. split; [rewrite E; apply te_agree_refl_|]. split; assumption. }
+      destruct c as [v|v op|e].
+      + eapply Hc. exact Hl.
+      + destruct op; try discriminate; eapply Hc; exact Hl.
+      + destruct (lower_shape avail auto_casts rty lty t mask fuel _ s c1 s1 Hl) as [G [L [N A]]]. auto.
+    - unfold need, instr, ret in Hl. destruct (avail KJmp); [|discriminate]. eapply Hone. exact Hl.
+    - unfold ret in Hl. inversion Hl; subst. split; [lia|]. split; [apply te_agree_refl_|]. split; [apply neutral_label | reflexivity].
+    - destruct (lower_args_simple n0 t mask fuel s Ha args Hwf) as [la [El _]]. rewrite El in Hl. cbn [app map rev] in Hl. eapply Hone. exact Hl.
+    - destruct e; try discriminate. unfold need, instr, ret in Hl. destruct (avail KInterrupt); [|discriminate]. eapply Hone. exact Hl.
+  Qed.
+End Sim.
